@@ -54,6 +54,12 @@ func routesOf(k string) []string {
 		return entryRoutes
 	case "Hash":
 		return hashRoutes
+	case "TName":
+		return nameRoutes
+	case "Deferred":
+		return deferredRoutes
+	case "RObj":
+		return robjRoutes
 	}
 	return nil
 }
@@ -67,6 +73,8 @@ func (v *V) withRoute(r string) *V {
 // routeApplicable: the route can make exactly the described value
 func (v *V) routeApplicable() bool {
 	switch v.K {
+	case "TName":
+		return v.nameExpr() != nil
 	case "Timestamp":
 		switch v.R {
 		case "mono":
